@@ -12,13 +12,14 @@ import (
 func init() {
 	register("C01", checkC01)
 	replayers["c01/concrete"] = replayConc
+	replayers["c01/firstuse"] = replayFirstUse
 	replayers["c01/step"] = func(c *Ctx, raw []byte) []string {
 		return replayStepCase(c, raw, AspState|AspI|AspMem|AspPortsOut|AspFrame)
 	}
 }
 
 func checkC01(c *Ctx) {
-	c.Rule = "every encoding of the measured implemented set x lattice (4 all-distinct base vectors; each of 20 dimensions varied alone over its boundary set; aliasing pairs; index+d and PC-wrap pairs; all 256 d for indexed forms; thorough: all value pairs of the 9 pointer dimensions) x all 256 F; one real Step compared with refz80 on the complete state, the memory image and the port writes; at every memory/port callback of the Step the registers the instruction does not use (unchanged per refz80; A..L, alternates, I, IX, IY) hold their values, and block input shows the device the undecremented B. Lattice points that coincide for an encoding are skipped (hash set), so cases are distinct; non-trivial = post-state differs from pre-state beyond PC/R or a data/port access happened (counted). Concrete-type pass: every implemented encoding x quick lattice x 2 (thorough 16) F values on the package's own device types (DumbMemory of 3 lengths incl. longer than 64K, MapMemory, DumbIO) handed over unwrapped vs behind an opaque forwarding wrapper: same post-state and same device contents (a type-switched fast path must not deviate from the interface path that the main pass compares with refz80)."
+	c.Rule = "every encoding of the measured implemented set x lattice (4 all-distinct base vectors; each of 20 dimensions varied alone over its boundary set; aliasing pairs; index+d and PC-wrap pairs; all 256 d for indexed forms; thorough: all value pairs of the 9 pointer dimensions) x all 256 F; one real Step compared with refz80 on the complete state, the memory image and the port writes; at every memory/port callback of the Step the registers the instruction does not use (unchanged per refz80; A..L, alternates, I, IX, IY) hold their values, and block input shows the device the undecremented B. Lattice points that coincide for an encoding are skipped (hash set), so cases are distinct; non-trivial = post-state differs from pre-state beyond PC/R or a data/port access happened (counted). Concrete-type pass: every implemented encoding x quick lattice x 2 (thorough 16) F values on the package's own device types (DumbMemory of 3 lengths incl. longer than 64K, MapMemory, DumbIO) handed over unwrapped vs behind an opaque forwarding wrapper: same post-state and same device contents (a type-switched fast path must not deviate from the interface path that the main pass compares with refz80). First-use pass: every implemented encoding as the very first instruction of 2 fresh processes (all flags clear / all flags set, different register files), then swept over the quick lattice x 4 F against refz80 inside that process (lazily built package-level state must not capture the first user's registers)."
 	c.Bound = "lattice v1 " + c.Tier
 	var slow chan string
 	if !c.Quick() {
@@ -51,6 +52,7 @@ func checkC01(c *Ctx) {
 			fs = c02FSet(true)
 		}
 		runConcreteTypes(c, "c01/concrete", encs, fs)
+		runFirstUse(c, "c01/firstuse", encs)
 	}
 	if slow != nil {
 		rep := <-slow
